@@ -67,6 +67,15 @@ def real_functor(fam, obmap, armap, style):
     ar = {fam.box(b): fam.run(e) for b, e in armap}
     if style == "callable":
         return m.Functor(ob=lambda t: ob[t], ar=lambda b: ar[b])
+    if style == "total":
+        # a box map defined on every box (also on daggered ones, where a functor must not use it:
+        # the image of a daggered box is the dagger of the image of the box)
+        def total(b):
+            if b.is_dagger:
+                F0 = m.Functor(ob=ob, ar={})
+                return m.Box("junk", F0(b.dom), F0(b.cod))
+            return ar[b]
+        return m.Functor(ob=lambda t: ob[t], ar=total)
     return m.Functor(ob=ob, ar=ar)
 
 
@@ -101,7 +110,7 @@ def run(tier, seed, replay=None):
             allboxes = e[3] + e2[3] + eb[3] + edd[3]
             malformed = (k % 12 == 11)
             obmap, armap = gen_functor(r, famn == "rigid", allboxes, malformed)
-            style = "callable" if k % 3 == 0 else "dict"
+            style = ("callable", "dict", "total", "dict")[k % 4]
             F = real_functor(fam, obmap, armap, style)
             ftok = tok_functor(obmap, armap)
             case = dict(family=famn, expr=repr(e), obmap=repr(obmap), armap=repr(armap)[:2000],
